@@ -104,6 +104,7 @@ type FT struct {
 	top       *Body
 	exitEnv   *CEnv
 	invHit    map[*Clause]bool
+	allTagsC  []string
 	nq        int
 }
 
